@@ -19,7 +19,7 @@ Definition st_of (o : option RwLockCond.state) : RwLockCond.state :=
 (* two readers inside the critical section at the same time *)
 Definition s_two_readers := st_of (RwLockCond.run [0;0;0;0;1;1;1;1] (RwLockCond.init [[rd];[rd]])).
 Example ex_cond_two_readers : reachable s_two_readers /\ readers_in_cs s_two_readers = 2 /\ writers_in_cs s_two_readers = 0.
-Proof. split; [eapply (run_reachable [[rd];[rd]] [0;0;0;0;1;1;1;1]); reflexivity|]. vm_compute. auto. Qed.
+Proof. split; [eapply (run_reachable [[rd];[rd]] [0;0;0;0;1;1;1;1]); vm_compute; reflexivity|]. vm_compute. auto. Qed.
 
 (* a writer inside, a reader and a writer blocked on the condition, not notified, predicate false *)
 Definition s_writer_in := st_of (RwLockCond.run [0;0;0;0;1;1;1;1;2;2;2;2] (RwLockCond.init [[wr];[rd];[wr]])).
@@ -27,7 +27,7 @@ Example ex_cond_writer_in :
   reachable s_writer_in /\ writers_in_cs s_writer_in = 1 /\ readers_in_cs s_writer_in = 0 /\
   waiters (glob s_writer_in) = [1; 2] /\ writer (glob s_writer_in) = true /\ mutex (glob s_writer_in) = None /\
   RwLockCond.enabled s_writer_in 1 = false /\ RwLockCond.enabled s_writer_in 2 = false /\ RwLockCond.enabled s_writer_in 0 = true.
-Proof. split; [eapply (run_reachable [[wr];[rd];[wr]] [0;0;0;0;1;1;1;1;2;2;2;2]); reflexivity|]. vm_compute. repeat split; auto. Qed.
+Proof. split; [eapply (run_reachable [[wr];[rd];[wr]] [0;0;0;0;1;1;1;1;2;2;2;2]); vm_compute; reflexivity|]. vm_compute. repeat split; auto. Qed.
 
 (* the window of C11_no_lost_wakeup: the writer has reset _writer, both waiters' predicates may be true, the
    notify_all is imminent (pc R_Check with _readers = 0) *)
@@ -36,9 +36,12 @@ Example ex_cond_window :
   reachable s_window /\ waiting_unnotified s_window 1 /\ pred R (glob s_window) = true /\ notifying s_window.
 Proof.
   assert (reachable s_window) as Hr.
-  { eapply (run_reachable [[wr];[rd];[wr]] ([0;0;0;0;1;1;1;1;2;2;2;2] ++ [0;0])); reflexivity. }
-  split; auto. split; [vm_compute; auto|]. split; [reflexivity|].
-  eapply (cond_no_lost_wakeup s_window 1); eauto; [reflexivity|vm_compute; auto|reflexivity].
+  { eapply (run_reachable [[wr];[rd];[wr]] ([0;0;0;0;1;1;1;1;2;2;2;2] ++ [0;0])); vm_compute; reflexivity. }
+  split; auto. split; [vm_compute; auto|]. split; [vm_compute; reflexivity|].
+  apply (cond_no_lost_wakeup s_window 1 (Th A_Blocked R 0 [] LNone) Hr).
+  - vm_compute. reflexivity.
+  - vm_compute. auto.
+  - vm_compute. reflexivity.
 Qed.
 
 (* ... and after the release both are notified, re-test, and the reader gets in *)
@@ -78,7 +81,7 @@ Example ex_file_two_procs :
   fenabled fs_readers 2 = false /\
   p_readers (proc_of (glob fs_readers) 0) = 1%Z /\ p_readers (proc_of (glob fs_readers) 1) = 1%Z.
 Proof.
-  split; [eapply (frun_reachable [(0, [frd]); (1, [frd]); (2, [fwr])] [0;0;0;0;0; 1;1;1;1;1]); reflexivity|].
+  split; [eapply (frun_reachable [(0, [frd]); (1, [frd]); (2, [fwr])] [0;0;0;0;0; 1;1;1;1;1]); vm_compute; reflexivity|].
   vm_compute. repeat split; auto.
 Qed.
 
@@ -108,7 +111,7 @@ Example ex_ld_busy :
   lookup 5 (d_dict (glob ls_busy)) = Some 0 /\ dq (glob ls_busy) 0 = [0; 1; 3] /\
   lenabled ls_busy 1 = false /\ lenabled ls_busy 3 = false /\ lenabled ls_busy 2 = true.
 Proof.
-  split; [eapply (lrun_reachable [[5];[5];[7];[5]] [0;0;0;0; 1;1;1;1; 2;2;2;2; 3;3;3;3]); reflexivity|].
+  split; [eapply (lrun_reachable [[5];[5];[7];[5]] [0;0;0;0; 1;1;1;1; 2;2;2;2; 3;3;3;3]); vm_compute; reflexivity|].
   vm_compute. repeat split; auto.
 Qed.
 
